@@ -4,6 +4,16 @@ import json, sys
 ids=[json.loads(l)['id'] for l in open('/verif/properties.jsonl')]
 BASE="R-mode (float64 as exact reals; IEEE rounding/NaN/Inf outside), mathematical integers, z3 4.8.12 + z3 5.1.0 trusted, environment stubs listed in DESIGN.md §2.5; counterexamples are reported only after native replay against the compiled real code"
 claims={
+ "C01":("one inductive step per constructor: operands are probe leaves (symbolic ordered box, fresh value per evaluation under contract K1 'negative => inside own box', plus K2/K3 where a constructor grows/shrinks the operand box by a distance), parameters symbolic and restricted only by the constructor's own checks and the stated domain, arbitrary query point: BoundingBox ordered and Evaluate(p) < -1e-6 => p inside the box (+1e-5): 41 constructors (3-D primitives, set operations, cut, elongate, array, offset, shell, uniform/non-uniform scale, translate, mirrors, rotation about z, extrude / scale-extrude / twist-extrude (lemma chain) / rounded extrude / loft / revolve, cone (round=0 quick), and the 2-D counterparts incl. rotate and slice)",
+        "coordinates and sizes bounded by 100; obj/* parts, Text2D, Screw3D, RevolveTheta3D, RotateCopy/RotateUnion, cams/flange/rack/spiral, rotation about arbitrary axes are outside this round; sin/cos of symbolic angles are unit pairs (axiom T1); compositions follow by structural induction (argument, not a solver step); domain restrictions (offset not vanishing the shape, k>0, height>0, admissible rounding) are stated in the harnesses"),
+ "C02":("differential harness per combinator against a reference that reads only the leaves' recorded (point, value) pairs: union/intersection/difference (2-D, 3-D, nil operands), translate, uniform scale, rotation about z (handedness), mirrors, elongate, cut, offset, shell, array, extrude, twist-extrude (handedness), scale-extrude, rounded extrude, revolve; blend kernels PolyMin/PolyMax/RoundMin/ChamferMin (symmetry, <= min, [min-k/4,min], = min when operands differ by k); Cache2D over all query histories of length 3 (symbolic map model)",
+        "ExpMin/PowMin, RotateCopy, RevolveTheta, Screw3D, Slice2D point map, Loft3D and VoxelSDF3 are outside this round; Union2D is covered by C16"),
+ "C03":("exactness of Sphere3D, Circle2D, Box2D, Box3D, Line2D, Cylinder3D/Capsule (all incl. rounding) against independent closed-form oracles for all parameters and points; 1-Lipschitz two-point obligations by lemma chaining over KL operands for union/intersection/difference (2-D, 3-D), offset, shell, translate, elongate, extrude, revolve, union with the polynomial blend",
+        "Cone3D exactness, rigid rotations, array/rotate-union/rounded extrude/partial revolve Lipschitz and the RotateCopy discontinuity are outside this round"),
+ "C05":("the real mcToTriangles (tables, interpolation with epsilon snapping, winding reversal, degenerate removal) with symbolic corner values: all 256 configurations (no degenerate triangle, every vertex on a straddling lattice edge, directed-edge balance inside the cell), orientation certificate for every surface patch of every configuration (all interpolation ratios), face-adjacent cell pairs (quick: 48 seeded patterns over 3 axes; thorough: all 3 x 4096): directed-edge balance across the shared face",
+        "lattice-line (4-cell) balance for snapped vertices, padding arithmetic and whole-grid runs are outside this round; closedness of whole meshes follows from cell/face balance by the argument in DESIGN §4 C05"),
+ "C08":("the real msToLines with symbolic corner values: all 16 configurations, all 2 x 64 edge-adjacent pairs, 4-cell neighbourhoods of a lattice point (quick 128 seeded of 512, thorough all): no zero-length segment, endpoints on straddling lattice edges, even degree at every point",
+        "perimeter convergence and circle accuracy are outside; the property speaks about undirected degree (marching squares does not orient segments consistently)"),
  "C11":("B1-B4 through the real code: scripted renderers write 13 (3-D) / 10 (2-D) batch patterns straddling the 256/128 buffer thresholds (empty batches included) through the real Triangle3Buffer/Line2Buffer, channel, consumer goroutine (WriteTriangles, writeSTL, write3MF, writeDXF, writeSVG) under the engine's deterministic scheduler; every delivered item is compared with the written sequence; STL count field and record count checked on the virtual file",
         "one schedule (run-until-block, FIFO); several producers and other interleavings are argued from mutex atomicity (DESIGN §4 C11), not explored; batch patterns are a finite list"),
  "C12":("every return path of ToSTL/To3MF/ToDXF/ToSVG under a symbolic position of the first failing I/O operation (create, each flush, seek, header rewrite, SaveAs/Encode) must not deadlock (engine detects 'all goroutines blocked'); goroutine ledger over three consecutive real MarchingCubesUniform renders must not grow",
@@ -14,7 +24,7 @@ claims={
         "stdlib parsers (strconv, strings.Fields, bufio.Scanner) stubbed by contract; binary files <= 2 (3) records"),
  "C15":("arguments handed to go3mf / yofu-dxf / svgo by write3MF, writeDXF, SaveDXF, SVG.Line/Save: one LINE per segment on layer Lines with exact coordinates in order; SVG canvas = extent, origin shift and Y flip per endpoint; 3MF one object / one build item / millimetre, corners = float32(input) in order and winding",
         "third-party writers are argument-recording stubs (decimal rounding, vertex de-duplication and file encodings trusted); on replay the real files are decoded natively"),
- "C16":("Box2/Box3.MinMaxDist2 == clamp / farthest-corner oracle for every ordered box and point (|coord| <= 1000, 9 resp. 27 position classes), Interval.Overlap <=> shared value",
+ "C16":("Box2/Box3.MinMaxDist2 == clamp / farthest-corner oracle for every ordered box and point (|coord| <= 1000, 9 resp. 27 position classes), Interval.Overlap <=> shared value; Union2D pruned == exhaustive evaluation for n = 2,3,4 operands (thorough 5) with MinMaxDist2 replaced by its proven contract; blended unions through the public API (two circles): known finding",
         "absolute margin 1e-6; Union2D pruned-vs-exhaustive evaluation: see per-harness bounds in evidence"),
  "C20":("TriangleI.Canonical is a minimal rotation and idempotent (symbolic indices <= 1000); TriangleISet.Equals true for every order x rotation of 2 triangles and every order of 3 (indices <= 7 / 6, executing the real sort.Sort from SSA) and false when a triangle differs",
         "sets of more than 3 triangles, Delaunay2d/Delaunay2dSlow agreement and the in-circle predicate are outside the quick tier"),
